@@ -1272,6 +1272,51 @@ def fsyncer_order(ctx):
     qs.append(PQuery("fsyncer worker: Done is reachable", cfg, {bb: [("bad", None)] for bb in done_bbs}, [], {}, expect="sat"))
     enc.add("io::fsyncer::worker @ nomt/src/io/fsyncer.rs")
 
+    # the two ends of the handle: fsync() always files a request and wakes the worker; wait() returns only what
+    # force_take_done hands out after the condition-variable wait
+    f = _fn(prog, r"fsyncer::<impl.*>::fsync$", "io/fsyncer.rs")
+    cfg = pathsmt.Cfg(f)
+    ops = {}
+    for bb in cfg.order:
+        b = cfg.blocks[bb]
+        o = []
+        if any(re.search(r"= (io::fsyncer::|fsyncer::)?State::Started", st) for st in b.stmts):
+            o.append(("set", "requested"))
+        if b.call and re.search(r"Condvar::notify_all|Condvar::notify_one", b.call[1]):
+            o += [("bad_unless", "requested"), ("set", "notified")]
+        if b.is_return:
+            o += [("bad_unless", "requested"), ("bad_unless", "notified")]
+        if o:
+            ops[bb] = o
+    if not any(x[0] == "set" and x[1] == "requested" for v in ops.values() for x in v):
+        raise Unmatched("Fsyncer::fsync: no `State::Started` assignment found")
+    qs.append(PQuery("Fsyncer::fsync: files the request (State::Started) and wakes the worker on every path", cfg, ops, ["requested", "notified"], {},
+                     scenario="c04_commit_order", key="Fsyncer::fsync:returns without filing a request"))
+    enc.add("io::fsyncer::Fsyncer::fsync @ nomt/src/io/fsyncer.rs")
+    f = _fn(prog, r"fsyncer::<impl.*>::wait$", "io/fsyncer.rs")
+    cfg = pathsmt.Cfg(f)
+    ops = {}
+    n_take = 0
+    for bb in cfg.order:
+        b = cfg.blocks[bb]
+        o = []
+        if b.call and re.search(r"Condvar::wait_while|Condvar::wait\b", b.call[1]):
+            o.append(("set", "waited"))
+        if b.call and re.search(r"force_take_done", b.call[1]):
+            o += [("bad_unless", "waited"), ("set", "taken")]
+            n_take += 1
+        if any(re.match(r"_0 = Result::<.*>::Ok\(", st) for st in b.stmts):
+            o.append(("bad", None))
+        if b.is_return:
+            o.append(("bad_unless", "taken"))
+        if o:
+            ops[bb] = o
+    if not n_take:
+        raise Unmatched("Fsyncer::wait: force_take_done not called")
+    qs.append(PQuery("Fsyncer::wait: waits, then returns exactly the worker's result", cfg, ops, ["waited", "taken"], {},
+                     scenario="c04_commit_order", key="Fsyncer::wait:returns without the worker's result"))
+    enc.add("io::fsyncer::Fsyncer::wait @ nomt/src/io/fsyncer.rs")
+
     f = _fn(prog, r"^recover$", "bitbox/mod.rs")
     cfg = pathsmt.Cfg(f)
     calls = [bb for bb in cfg.order if cfg.blocks[bb].call and re.search(r"truncate_wal", cfg.blocks[bb].call[1])]
